@@ -26,6 +26,8 @@ def run(chk):
     e3.run_V1(chk)
     e3.run_I4(chk)
 
+    from . import e10 as _e10
+    _e10.run_U3(chk, ("yastn.tensor", "yastn.initialize"))
     from . import e10
     e10.run_U(chk, ("yastn.tensor._merging", "yastn.tensor._contractions", "yastn.tensor._algebra", "yastn.tensor._legs", "yastn.initialize"), floor1=5, floor2=1)
 
